@@ -231,7 +231,7 @@ theorem gi_step (s : St) (op : Op) (r : Nat) (ra : Ra) (hg : getRa s r = some ra
            right; right
            refine ⟨g, ?_⟩
            simp_all)
-  | plan r0 owner alloc dur =>
+  | plan r0 owner alloc dur te =>
     simp only [step, stepPlan]
     cases hr0 : getRa s r0 with
     | none => exact keep
@@ -247,6 +247,21 @@ theorem gi_step (s : St) (op : Op) (r : Nat) (ra : Ra) (hg : getRa s r = some ra
            cases hr0
            right; left
            simp_all)
+  | enable r0 owner =>
+    simp only [step, stepEnable]
+    cases hr0 : getRa s r0 with
+    | none => exact keep
+    | some ra0 =>
+      simp only
+      repeat' split
+      all_goals first
+        | exact keep
+        | (refine upd r0 ra0 _ hr0 rfl ?_
+           intro hr
+           subst hr
+           rw [hg] at hr0
+           cases hr0
+           left; rfl)
   | tick dt => exact keep
   | seq r0 =>
     simp only [step, stepSeq]
@@ -347,6 +362,119 @@ theorem launched_or_plan_sealed {s : St} {r : Nat} {ra : Ra} (hs : Reachable s) 
     (hl : ra.launched = true ∨ ra.plan.isSome = true) : ra.gi.sealed = true :=
   ((reachable_inv hs).get hg).sealedI hl
 
+-- ------------------------------------------------------------------------------------------------ IRO plans, deferred trading
+
+/-- **plan_seals_genesis_info_any_trading_flag** — an accepted `MsgCreatePlan` seals the registered
+    genesis info whether the plan is created with trading enabled or not (nothing else of the genesis
+    info changes); the pre-launch time is plan start + duration when trading is enabled and block
+    time + 10 years when it is not. -/
+theorem plan_seals_genesis_info_any_trading_flag (s : St) (r : Nat) (owner : Bool) (alloc : Int) (dur : Nat) (te : Bool)
+    (hok : (step s (.plan r owner alloc dur te)).2 = .ok) :
+    ∃ ra ra', getRa s r = some ra ∧ getRa (step s (.plan r owner alloc dur te)).1 r = some ra' ∧
+      ra'.gi.sealed = true ∧ ra'.gi = { ra.gi with sealed := true } ∧
+      ra'.plan = some (alloc, false) ∧ ra'.te = te ∧
+      ra'.preLaunch = some (if te then s.now + dur else s.now + tenYears) := by
+  obtain ⟨ra, hg, _, _, _, _, he⟩ := stepPlan_ok (s := s) hok
+  have hrid : ra.id = r := (getRa_mem hg).2
+  refine ⟨ra, planned s.now ra alloc dur te, hg, ?_, rfl, rfl, rfl, rfl, ?_⟩
+  · show getRa (stepPlan s r owner alloc dur te).1 r = _
+    rw [he]
+    have := getRa_setRa_self (s := s) (x := planned s.now ra alloc dur te) (ra := ra) (by show getRa s ra.id = _; rw [hrid]; exact hg)
+    have hid : (planned s.now ra alloc dur te).id = r := hrid
+    rw [hid] at this
+    exact this
+  · simp only [planned, planPreLaunch]
+
+/-- only the owner creates a plan: a `MsgCreatePlan` by anybody else is refused without any change -/
+theorem plan_owner_only (s : St) (r : Nat) (alloc : Int) (dur : Nat) (te : Bool) :
+    step s (.plan r false alloc dur te) = (s, .err) := by
+  simp only [step, stepPlan]
+  split <;> rfl
+
+/-- **enable_trading_owner_only** — `MsgEnableTrading` by anybody but the rollapp's owner is refused and
+    changes nothing … -/
+theorem enable_trading_owner_only (s : St) (r : Nat) : step s (.enable r false) = (s, .err) := by
+  simp only [step, stepEnable]
+  repeat' split
+  all_goals first
+    | rfl
+    | simp_all
+
+/-- … and an accepted one comes from the owner of a rollapp with an unsettled plan whose trading was
+    not enabled yet. -/
+theorem enable_trading_accepted_only_for_owner {s : St} {r : Nat} {owner : Bool}
+    (hok : (step s (.enable r owner)).2 = .ok) :
+    owner = true ∧ ∃ ra alloc, getRa s r = some ra ∧ ra.plan = some (alloc, false) ∧ ra.te = false := by
+  obtain ⟨ra, alloc, hg, ho, hp, hte, _⟩ := stepEnable_ok (s := s) hok
+  exact ⟨ho, ra, alloc, hg, hp, hte⟩
+
+/-- **enable_trading_keeps_seal** — `MsgEnableTrading`, accepted or not, leaves the registered genesis
+    info (the seal included), the plan's allocation / settlement state and the launch flag of every
+    rollapp as they are; when it is accepted (in a reachable state) the genesis info of its rollapp is
+    sealed before and after, trading is enabled and the pre-launch time is block time + plan duration. -/
+theorem enable_trading_keeps_seal {s : St} {r : Nat} {owner : Bool} (hs : Reachable s) :
+    (∀ q ra, getRa s q = some ra → ∃ ra', getRa (step s (.enable r owner)).1 q = some ra' ∧
+        ra'.gi = ra.gi ∧ ra'.plan = ra.plan ∧ ra'.launched = ra.launched) ∧
+    ((step s (.enable r owner)).2 = .ok → ∃ ra ra', getRa s r = some ra ∧ getRa (step s (.enable r owner)).1 r = some ra' ∧
+        ra.gi.sealed = true ∧ ra'.gi.sealed = true ∧ ra'.te = true ∧ ra'.pstart = some s.now ∧
+        ra'.preLaunch = some (s.now + ra.pdur)) := by
+  have hget : ∀ ra, getRa s r = some ra → getRa (setRa s (enabled s.now ra)) r = some (enabled s.now ra) := by
+    intro ra hg
+    have hrid : ra.id = r := (getRa_mem hg).2
+    have := getRa_setRa_self (s := s) (x := enabled s.now ra) (ra := ra) (by show getRa s ra.id = _; rw [hrid]; exact hg)
+    have hid : (enabled s.now ra).id = r := hrid
+    rw [hid] at this
+    exact this
+  constructor
+  · intro q ra hq
+    by_cases hok : (step s (.enable r owner)).2 = .ok
+    · obtain ⟨ra0, _, hg, _, _, _, he⟩ := stepEnable_ok (s := s) hok
+      show ∃ ra', getRa (stepEnable s r owner).1 q = some ra' ∧ _
+      rw [he]
+      by_cases hqr : q = r
+      · subst hqr
+        rw [hg] at hq; cases hq
+        exact ⟨_, hget _ hg, rfl, rfl, rfl⟩
+      · refine ⟨ra, ?_, rfl, rfl, rfl⟩
+        have hid : (enabled s.now ra0).id = r := (getRa_mem hg).2
+        show getRa (setRa s (enabled s.now ra0)) q = some ra
+        rw [getRa_setRa_ne s _ (by rw [hid]; exact hqr)]
+        exact hq
+    · have he := stepEnable_err (s := s) (r := r) (owner := owner) hok
+      show ∃ ra', getRa (stepEnable s r owner).1 q = some ra' ∧ _
+      rw [he]
+      exact ⟨ra, hq, rfl, rfl, rfl⟩
+  · intro hok
+    obtain ⟨ra, alloc, hg, _, hp, _, he⟩ := stepEnable_ok (s := s) hok
+    have hsd := ((reachable_inv hs).get hg).sealedI (Or.inr (by rw [hp]; rfl))
+    refine ⟨ra, enabled s.now ra, hg, ?_, hsd, hsd, rfl, rfl, rfl⟩
+    show getRa (stepEnable s r owner).1 r = _
+    rw [he]
+    exact hget ra hg
+
+/-- a plan created with trading disabled freezes the genesis info like any other plan: in every reachable
+    state, before and after `MsgEnableTrading`, the owner's genesis-info update of a rollapp that has
+    an IRO plan is refused without any change (instance of `genesis_info_frozen`, stated for the
+    deferred-trading flow) -/
+theorem trading_disabled_plan_frozen {s : St} {r : Nat} {ra : Ra} (hs : Reachable s) (hg : getRa s r = some ra)
+    (hp : ra.plan.isSome = true) (_hte : ra.te = false) :
+    ra.gi.sealed = true ∧ (∀ g, step s (.setgi r true (some g)) = (s, .err)) ∧
+    (∀ owner, ∃ ra', getRa (step s (.enable r owner)).1 r = some ra' ∧ ra'.gi = ra.gi ∧ ra'.gi.sealed = true ∧
+      ∀ g, step (step s (.enable r owner)).1 (.setgi r true (some g)) = ((step s (.enable r owner)).1, .err)) := by
+  obtain ⟨hsd, hset, _⟩ := genesis_info_frozen hs hg (Or.inr hp)
+  refine ⟨hsd, hset, ?_⟩
+  intro owner
+  obtain ⟨ra', hg', hgi, _, _⟩ := (enable_trading_keeps_seal (r := r) (owner := owner) hs).1 r ra hg
+  refine ⟨ra', hg', hgi, by rw [hgi]; exact hsd, ?_⟩
+  intro g
+  simp only [step, stepSetgi]
+  show (match getRa (step s (.enable r owner)).1 r with | none => _ | some ra => _) = _
+  rw [hg']
+  simp only
+  split
+  · rfl
+  · simp [hgi, hsd]
+
 -- ------------------------------------------------------------------------------------------------ non-vacuity
 
 /-- a registered genesis info with two accounts -/
@@ -382,5 +510,41 @@ example : (step (run init ops0) (.setgi 0 true (some { gi0 with checksum := 2 })
 example : (step (run init [.create 0 (some gi0)]) (.setgi 0 true (some { gi0 with checksum := 2 }))).2 = .ok := by decide
 /-- `compareAccounts` holds for a reordered list and fails for a list with a duplicate replacing an account -/
 example : compareAccounts gi0.accounts [⟨2, 20⟩, ⟨1, 10⟩] = true ∧ compareAccounts gi0.accounts [⟨1, 10⟩, ⟨1, 10⟩] = false := by decide
+
+-- deferred trading
+/-- a registered genesis info with an IRO account of 11 tokens (18 decimals) -/
+def giIro : GInfo := { checksum := 1, pfx := 1, denom := ⟨1, 11, 18⟩, supply := some 11000000000000000010,
+                       accounts := [⟨1, 10⟩, ⟨iroAddr, 11000000000000000000⟩], sealed := false }
+def pktIro : Pkt := .gb { gi := giIro, md := ⟨1, [(1, 0), (11, 18)], true, true⟩, tr := some ⟨1, 11000000000000000010, true, 0, true⟩ }
+/-- create, 100 s later the owner creates the plan with trading DISABLED -/
+def opsTD : List Op := [.create 0 (some giIro), .tick 100, .plan 0 true 11000000000000000000 600 false]
+theorem opsTD_ok : AllPhOk opsTD := by intro op hop; simp [opsTD] at hop; rcases hop with rfl | rfl | rfl <;> trivial
+
+/-- the plan is accepted with either flag (hypothesis of `plan_seals_genesis_info_any_trading_flag`) and
+    seals; pre-launch time: 100 + 600 with trading enabled, 100 + 10 years without -/
+example : ∀ te, (step (run init [.create 0 (some giIro), .tick 100]) (.plan 0 true 11000000000000000000 600 te)).2 = .ok := by decide
+example : (getRa (run init opsTD) 0).map (fun ra => (ra.gi.sealed, ra.plan.isSome, ra.te, ra.pstart, ra.preLaunch))
+    = some (true, true, false, (none : Option Nat), some 315360100) := by decide
+example : ((getRa (step (run init [.create 0 (some giIro), .tick 100]) (.plan 0 true 11000000000000000000 600 true)).1 0).map
+    (fun ra => (ra.gi.sealed, ra.te, ra.pstart, ra.preLaunch))) = some (true, true, some 100, some 700) := by decide
+/-- the state with a trading-disabled plan is reachable (hypotheses of `trading_disabled_plan_frozen`) -/
+example : Reachable (run init opsTD) ∧ (getRa (run init opsTD) 0).map (fun ra => (ra.plan.isSome, ra.te)) = some (true, false) :=
+  ⟨⟨opsTD, opsTD_ok, rfl⟩, by decide⟩
+/-- the owner's genesis-info update after the trading-disabled plan is refused; so is a sequencer (pre-launch time) -/
+example : (step (run init opsTD) (.setgi 0 true (some { giIro with checksum := 2 }))).2 = .err := by decide
+example : (step (run init opsTD) (.seq 0)).2 = .err := by decide
+/-- `MsgEnableTrading`: refused for a stranger, for a rollapp without plan, accepted for the owner (hypothesis of
+    `enable_trading_keeps_seal` / `enable_trading_accepted_only_for_owner`), refused a second time -/
+example : (step (run init opsTD) (.enable 0 false)).2 = .err := by decide
+example : (step (run init [.create 0 (some giIro)]) (.enable 0 true)).2 = .err := by decide
+example : (step (run init (opsTD ++ [.tick 50])) (.enable 0 true)).2 = .ok := by decide
+example : (step (run init (opsTD ++ [.tick 50, .enable 0 true])) (.enable 0 true)).2 = .err := by decide
+/-- … it moves the pre-launch time to 150 + 600, keeps the seal, and the owner's update is still refused -/
+example : (getRa (run init (opsTD ++ [.tick 50, .enable 0 true])) 0).map (fun ra => (ra.gi.sealed, ra.te, ra.pstart, ra.preLaunch))
+    = some (true, true, some 150, some 750) := by decide
+example : (step (run init (opsTD ++ [.tick 50, .enable 0 true])) (.setgi 0 true (some { giIro with checksum := 2 }))).2 = .err := by decide
+/-- … and after the plan's duration the rollapp launches and the handshake settles the plan -/
+example : ((getRa (run init (opsTD ++ [.tick 50, .enable 0 true, .tick 600, .seq 0, .link 0, .recv 0 7 pktIro])) 0).map
+    (fun ra => (ra.launched, ra.plan, ra.tph, ra.nOpen))) = some (true, some (11000000000000000000, true), 7, 1) := by decide
 
 end DymVerif.Props.C10
